@@ -15,7 +15,8 @@ RULE = ("(1) L-BFGS: seeded random strictly convex quadratics 1/2 x'Mx - b'x, M 
         "iterate of the real LBFGS::optimize is an event.  A run is non-trivial when it has the full budget and made >= 3 "
         "accepted steps on a problem with condition number > 1.  (2) LogisticRegression::fit+predict on seeded training sets, "
         "n 6..60 (thorough 100), p 1..6, k 2..4 classes with arbitrary label values, features of scale 1/8..100 with shifts, "
-        "layouts from identical to separable, alpha in {0, 1/64 .. 10}; one event per fit.  A fit is non-trivial when its "
+        "layouts from identical to separable, alpha in {0, 1/64 .. 10}, preceded by the two fixed training sets of the known "
+        "findings; one event per fit.  A fit is non-trivial when its "
         "scores fit the fixed-point budget, n >= 2(p+1) and alpha > 0.  distinct = distinct inputs (digest of the input fields)")
 
 LB_TRACE = ("linear/LBFGSTrace.tla", "linear/LBFGSTrace.cfg")
@@ -32,8 +33,17 @@ def lb_key(start, clause):
 
 
 def lg_key(e, clause):
-    return ("logit %s: k=%d p=%d n=%d alpha=%d/64 layout=%s labels2=%s"
-            % (clause, e["k"], e["p"], e["n"], e["alphaNum"], e["layout"], e["labels2"]))
+    """Input class of a logistic fit: number of classes, size of the penalty, largest feature magnitude
+    (and, without penalty, the class layout, which decides whether the likelihood has a finite optimum)."""
+    kb = "k=2" if e["k"] == 2 else "k>=3"
+    a = e["alphaNum"]
+    ab = "alpha=0" if a == 0 else "alpha<=1/16" if a <= 4 else "alpha<=1" if a <= 64 else "alpha>1"
+    xmax = max(abs(v) for r in e["X"] for v in r) / float(1 << e["xS"])
+    xb = "xmax>=128" if xmax >= 128 else "xmax<128"
+    key = "logit %s: %s %s %s" % (clause, kb, ab, xb)
+    if a == 0:
+        key += " layout=%s" % e["layout"]
+    return key
 
 
 def negative_model(ctx, cfg, invariant):
@@ -48,19 +58,20 @@ def negative_model(ctx, cfg, invariant):
     ctx.extra.setdefault("negative_model_tests", []).append({"cfg": cfg, "violated": invariant, "wall_s": round(dt, 1)})
 
 
-def selftest_binding(ctx, lb_events, lg_events):
-    """Corrupt recorded events and insist that the trace specs reject them at those lines."""
+def selftest_binding(ctx, lb_events, lg_events, bad_runs, bad_fits):
+    """Corrupt recorded events (of runs that passed) and insist that the trace specs reject them."""
     runs = {}
     for e in lb_events:
         runs.setdefault(e["run"], []).append(e)
     pick = None
     for r, es in runs.items():
         its = [x for x in es if x["ev"] == "Iter"]
-        if es[0]["maxIter"] >= 1000 and len(its) >= 3 and its[0]["fRk"] > its[1]["fRk"] and es[-1]["status"] == "ok":
+        if r not in bad_runs and es[0]["maxIter"] >= 1000 and 3 <= len(its) <= 40 and es[-1]["status"] == "ok" \
+                and es[0]["fRk"] > its[0]["fRk"] > its[1]["fRk"] > its[2]["fRk"] and es[0]["gEx"] > es[0]["atolEx"] + 12:
             pick = es
             break
-    bad_expected = 0
-    evs = []
+    if not pick:
+        raise vlib.ToolError("binding self-test: no suitable recorded L-BFGS run")
     if pick:
         a = copy.deepcopy(pick)                      # an increase of the objective
         a[1]["fRk"], a[2]["fRk"] = a[2]["fRk"], a[1]["fRk"]
@@ -70,7 +81,6 @@ def selftest_binding(ctx, lb_events, lg_events):
         c = copy.deepcopy(pick)                      # the optimiser panicked
         c[-1]["status"] = "panic"
         evs = a + b + c
-        bad_expected = 3
         f = ctx.path("c09-selftest-lbfgs.ndjson")
         vlib.write_ndjson(f, evs)
         v, bads = ctx.tlc_trace(LB_TRACE[0], LB_TRACE[1], f, tag="selftest-lbfgs")
@@ -79,9 +89,12 @@ def selftest_binding(ctx, lb_events, lg_events):
             raise vlib.ToolError("binding self-test: corrupted L-BFGS runs gave %s" % got)
     pick = None
     for e in lg_events:
-        if e["status"] == "ok" and e["wOk"] and e["alphaNum"] >= 16 and e["k"] >= 3 and min(e["wS"]) >= 12 and e["layout"] in ("apart", "overlap"):
+        if e["run"] not in bad_fits and e["status"] == "ok" and e["wOk"] and e["alphaNum"] >= 16 and e["k"] >= 3 \
+                and min(e["wS"]) >= 12 and e["layout"] in ("apart", "overlap"):
             pick = e
             break
+    if not pick:
+        raise vlib.ToolError("binding self-test: no suitable recorded logistic fit")
     if pick:
         a = copy.deepcopy(pick)                      # the all-zero start returned as the fit
         a["coef"] = [[0] * a["p"] for _ in a["coef"]]
@@ -99,7 +112,6 @@ def selftest_binding(ctx, lb_events, lg_events):
         need = {(1, "Stationary"), (2, "Argmax"), (3, "Labels")}
         if not need <= got:
             raise vlib.ToolError("binding self-test: corrupted logistic fits gave %s" % sorted(got))
-        bad_expected += len(bads)
     # the self-test runs are not evidence about the code
     ctx.trace_runs = [t for t in ctx.trace_runs if not t["trace"].startswith("c09-selftest")]
     ctx.extra["binding_selftest"] = "corrupted events rejected: Monotone, Reduced, Terminates; Stationary, Argmax, Labels"
@@ -112,6 +124,7 @@ def run(ctx):
     ctx.tlc_mc("linear/LBFGSModel.tla", "linear/LBFGSModel_%s.cfg" % t, must_cover=MODEL_ACTIONS)
     negative_model(ctx, "LBFGSModel_nonconvex.cfg", "ProtoOK")
     negative_model(ctx, "LBFGSModel_panic.cfg", "NeverPanics")
+    negative_model(ctx, "LBFGSModel_stalescale.cfg", "NeverScalesByInitialSlot")
     for mode in ("num", "bin", "tri"):
         ctx.tlc_mc("linear/LogisticMC.tla", "linear/LogisticMC_%s_%s.cfg" % (mode, t), tag="mc-logistic-" + mode)
     # ---- impl -> spec: the optimiser
@@ -149,9 +162,15 @@ def run(ctx):
         e = lg[l - 1]
         if clause == "HarnessInput":
             raise vlib.ToolError("the generator emitted an event outside its own input contract (line %d)" % l)
-        ctx.report(lg_key(e, clause), "%s fails on a logistic fit (run %d)" % (clause, runid), [e])
+        ctx.report(lg_key(e, clause), "%s fails on a logistic fit (run %d: n=%d p=%d k=%d alpha=%d/64 layout=%s)"
+                   % (clause, runid, e["n"], e["p"], e["k"], e["alphaNum"], e["layout"]), [e])
     # ---- the binding is real
-    selftest_binding(ctx, lb, lg)
+    try:
+        selftest_binding(ctx, lb, lg, set(b[1] for b in bads), set(b[1] for b in bads2))
+    except vlib.ToolError as err:
+        if not ctx.violations:
+            raise
+        vlib.log("[selftest] skipped on a violating tree: %s" % err)
     # ---- evidence
     ctx.evaluations = len(lb) + len(lg)
     ctx.traces = len(by_run) + len(lg)
@@ -183,7 +202,7 @@ def run(ctx):
     ]
     return ctx.finish(RULE, len(nt), exhaustive=False,
                       explanation="design models LBFGSModel (control structure of optimize/update_state/assess_convergence/"
-                                  "update_hessian/Backtracking::search, with two negative configurations that must fail) and "
+                                  "update_hessian/Backtracking::search, with three negative configurations that must fail, one of which is the path behind the NaN finding) and "
                                   "LogisticMC (the contracts on two fixed training sets over grids of candidate models, and the "
                                   "functional equations of the exp/ln enclosures) are model-checked; recorded runs of the real "
                                   "optimiser and of LogisticRegression are validated by LBFGSTrace / LogisticTrace")
@@ -208,7 +227,10 @@ def replay(ctx, path):
     try:
         ctx.build()
         f2 = ctx.path("replay-rerun.ndjson")
-        ctx.harness("rerun-lbfgs" if is_lb else "rerun-logit", f2, evs[0]["run"])
+        if is_lb:       # the quadratic is not part of the events: regenerate it from (seed, tier, run)
+            ctx.harness("rerun-lbfgs", f2, evs[0]["run"])
+        else:           # the training set is: fit it again
+            ctx.harness("refit-file", f2, f)
         v, bads = ctx.tlc_trace(spec[0], spec[1], f2, tag="replay-rerun")
         for b in bads:
             print("REPLAY-BAD rerun", b)
